@@ -137,3 +137,19 @@ Example C06_layout_example :
 Proof.
   cbn [disjoint_wins]. repeat split; try (repeat constructor; unfold apart; cbn; lia).
 Qed.
+
+(** the list front-end that is extracted (trie lookups, shared half spectrum) computes the
+    function-level model the theorems speak of - computed here on the exact N = 4 table with two
+    bunches of width 2, spacing 2, buckets 1 and 0 (the general statement is exercised by the
+    correspondence run, not proved) *)
+Example C06_list_frontend_agrees :
+  let tc := map Qcz [1; 0; -1; 0] in
+  let ts := map Qcz [0; 1; 0; -1] in
+  let zi : list (cplx QcF) := [(Qcz 3, Qcz 5); (Qcz 2, Qcz (-1)); (Qcz 7, Qcz 7); (Qcz 1, Qcz 1)] in
+  let profs : list (list QcF) := [map Qcz [1; 2]; map Qcz [3; 5]] in
+  let bs := [(1, getz 0%Qc (map Qcz [1; 2])); (0, getz 0%Qc (map Qcz [3; 5]))] : list (Z * (Z -> QcF)) in
+  wake_list (K:=QcF) 4 2 2 tc ts zi [] [1; 0] profs [] (Qcz 2)
+  = map (fun bk => map (wake_model (K:=QcF) 4 cs4 sn4 2 2 (getz (@czero QcF) zi) (fun _ => @czero QcF) (fun _ => 0%Qc) bs (Qcz 2) bk)
+                       (zrange 2)) [1; 0]
+  /\ padded_list (K:=QcF) 4 2 2 [1; 0] profs [] = map Qcz [3; 5; 1; 2].
+Proof. split; vm_compute; reflexivity. Qed.
